@@ -24,9 +24,14 @@ theorem C14_thread_safe_build_shape :
     test (the list is regenerated from the `#if`s of include/adept/*.h; Storage.h is preprocessed once per macro, with that macro
     and ADEPT_STORAGE_THREAD_SAFE defined together) the reference counter is still a std::atomic, `remove_link`/`add_link` keep
     the single read-modify-write shape of `C14_thread_safe_build_shape`, and the storage counters stay atomic — no other switch
-    (ADEPT_FAST, ADEPT_STACK_THREAD_UNSAFE, …) silently cancels the request.  Whole-table `decide`. -/
+    (ADEPT_FAST, ADEPT_STACK_THREAD_UNSAFE, …) silently cancels the request.  The census is taken TWICE: without and with the
+    compiler's OpenMP switch (`-fopenmp`, i.e. the predefined `_OPENMP`), over the same rows (first row: no other macro), so an
+    `#if defined(ADEPT_STORAGE_THREAD_SAFE) && defined(_OPENMP)` (or `&& !defined(_OPENMP)`) falsifies one of the two tables.
+    Whole-table `decide`. -/
 theorem C14_thread_safe_under_every_config :
-    StorageCfg.threadSafeUnderConfig.all (fun c => c.2) = true ∧ 20 ≤ StorageCfg.threadSafeUnderConfig.length := by decide
+    StorageCfg.threadSafeUnderConfig.all (fun c => c.2) = true ∧ 20 ≤ StorageCfg.threadSafeUnderConfig.length ∧
+    StorageCfg.threadSafeUnderConfigOpenMP.all (fun c => c.2) = true ∧
+    StorageCfg.threadSafeUnderConfigOpenMP.map (fun c => c.1) = StorageCfg.threadSafeUnderConfig.map (fun c => c.1) := by decide
 
 /-- FREED EXACTLY ONCE (micro-step level).  `T` threads; thread `t` starts owning `h0 t` views of the shared data (at
     least one view exists) and runs a well-formed program (it only copies/slices a view it owns and only destroys views
